@@ -1,15 +1,19 @@
-/* Table dumper: compiled against /repo/libscpi on every run.  It #includes the .c files
- * that hold file-static tables so that the values printed are the ones the compiler sees
- * for the configuration under check.  Output is parsed by extract.py. */
+/* Table dumper: compiled against /repo/libscpi on every run, for the configuration under check.  Output is parsed by
+ * extract.py.  Two programs come out of this file:
+ *   default            only public headers and the public API, linked with the whole library.  The error-class table is
+ *                      read off the BEHAVIOUR of SCPI_ErrorPush for all 65536 codes (which event-status bits one push
+ *                      sets), so it does not depend on how error.c represents it;
+ *   -DDUMP_REGS        #includes ieee488.c for its file-static register tables (no other way to read them). */
 #include <stdio.h>
 #include <string.h>
-#include "error.c"
-#undef X
-#undef XE
+#ifdef DUMP_REGS
 #include "ieee488.c"
+#else
+#include "scpi/scpi.h"
 #include "scpi/units.h"
 #include "scpi/utils.h"
 #include "utils_private.h"
+#endif
 
 static void hex(const char *s) {
     if (!s) { printf("NULL"); return; }
@@ -17,10 +21,53 @@ static void hex(const char *s) {
     while (*s) printf("%02x", (unsigned char) *s++);
 }
 
+#ifdef DUMP_REGS
 int main(void) {
     int i;
-    for (i = 0; i < ERROR_DEFS_N; i++)
-        printf("ERRCLASS %d %d %u\n", errs[i].from, errs[i].to, (unsigned) errs[i].esrBit);
+    for (i = 0; i < SCPI_REG_COUNT; i++)
+        printf("REGDETAIL %d %d %d\n", i, (int) scpi_reg_details[i].type, (int) scpi_reg_details[i].group);
+    for (i = 0; i < SCPI_REG_GROUP_COUNT; i++) {
+        const scpi_reg_group_info_t *g = &scpi_reg_group_details[i];
+        printf("REGGROUP %d %d %d %d %d %d %d %u\n", i, (int) g->event, (int) g->enable, (int) g->condition,
+               (int) g->ptfilt, (int) g->ntfilt, (int) g->parent_reg, (unsigned) g->parent_bit);
+    }
+    return 0;
+}
+#else
+static const scpi_command_t no_cmds[] = { SCPI_CMD_LIST_END };
+static size_t w_write(scpi_t *c, const char *d, size_t n) { (void) c; (void) d; return n; }
+
+/* maximal ranges of codes whose push sets the same non-empty set of event-status bits, ascending; printed as
+ * "ERRCLASS <highest> <lowest> <bits>" (the order error.c itself uses: from = upper bound, to = lower bound) */
+static void dump_error_classes(void) {
+    static scpi_t ctx; static scpi_interface_t ifc; static scpi_error_t q[4]; static char in[16];
+    long code, start = 0; unsigned cur = 0;
+#if USE_DEVICE_DEPENDENT_ERROR_INFORMATION && !USE_MEMORY_ALLOCATION_FREE
+    static char heap[64];
+#endif
+    memset(&ifc, 0, sizeof ifc); ifc.write = w_write;
+    SCPI_Init(&ctx, no_cmds, &ifc, scpi_units_def, "a", "b", "c", "d", in, sizeof in, q, 4);
+#if USE_DEVICE_DEPENDENT_ERROR_INFORMATION && !USE_MEMORY_ALLOCATION_FREE
+    SCPI_InitHeap(&ctx, heap, sizeof heap);
+#endif
+    for (code = -32768; code <= 32768; code++) {
+        unsigned bits = 0;
+        if (code <= 32767) {
+            SCPI_ErrorClear(&ctx); SCPI_RegSet(&ctx, SCPI_REG_ESR, 0);
+            SCPI_ErrorPush(&ctx, (int16_t) code);
+            bits = (unsigned) SCPI_RegGet(&ctx, SCPI_REG_ESR);
+        }
+        if (bits != cur) {
+            if (cur) printf("ERRCLASS %ld %ld %u\n", code - 1, start, cur);
+            cur = bits; start = code;
+        }
+    }
+    SCPI_ErrorClear(&ctx);
+}
+
+int main(void) {
+    int i;
+    dump_error_classes();
 #define X(def, val, str) printf("ERRDESC %d ", (int)(val)); hex(SCPI_ErrorTranslate(val)); printf(" "); hex(str); printf("\n");
 #if USE_FULL_ERROR_LIST
 #define XE X
@@ -31,13 +78,6 @@ int main(void) {
 #undef X
 #undef XE
     printf("ERRFALLBACK "); hex(SCPI_ErrorTranslate(12345)); printf("\n");
-    for (i = 0; i < SCPI_REG_COUNT; i++)
-        printf("REGDETAIL %d %d %d\n", i, (int) scpi_reg_details[i].type, (int) scpi_reg_details[i].group);
-    for (i = 0; i < SCPI_REG_GROUP_COUNT; i++) {
-        const scpi_reg_group_info_t *g = &scpi_reg_group_details[i];
-        printf("REGGROUP %d %d %d %d %d %d %d %u\n", i, (int) g->event, (int) g->enable, (int) g->condition,
-               (int) g->ptfilt, (int) g->ntfilt, (int) g->parent_reg, (unsigned) g->parent_bit);
-    }
 #define C(n) printf("CONST %s %ld\n", #n, (long)(n))
     C(STB_R01); C(STB_PRO); C(STB_QMA); C(STB_QES); C(STB_MAV); C(STB_ESR); C(STB_SRQ); C(STB_OPS);
     C(ESR_OPC); C(ESR_REQ); C(ESR_QER); C(ESR_DER); C(ESR_EER); C(ESR_CER); C(ESR_URQ); C(ESR_PON);
@@ -66,3 +106,4 @@ int main(void) {
     }
     return 0;
 }
+#endif
